@@ -88,7 +88,7 @@ class Prop(BaseProp):
             "with mul_scalar and add so that stale cached state would show; every answer is compared with the exact "
             "model. W6 interval positions: ends on breakpoints, between, same piece, on x0 / xn. distinct = (kind, "
             "#pieces, step kinds with interval-position kinds)")
-    budget = {"quick": 2400, "thorough": 60000}
+    budget = {"quick": 4800, "thorough": 1800000}
     must_see = ["kind_pwc", "kind_pwl", "ikind_same_piece", "ikind_bp_bp", "ikind_from_start", "ikind_to_end",
                 "ikind_half_half", "single_piece_function", "negative_values", "eval_on_interior_breakpoint",
                 "eval_1ulp_from_breakpoint", "eval_list_with_breakpoint", "query_after_mutation", "avrg_list", "additive",
